@@ -158,6 +158,10 @@ func derefNamed(t types.Type) (*types.Named, bool) {
 func (x *Exec) builtin(name string, args []Value, c *ssa.CallCommon) Value {
 	B := x.B
 	switch name {
+	case "ssa:deferstack":
+		// the defer stack handle of range-over-func lowering: defers are run by the
+		// interpreter's own frame bookkeeping
+		return OpaqueV{Kind: "deferstack"}
 	case "len":
 		switch u := args[0].(type) {
 		case StrV:
